@@ -15,7 +15,7 @@ export CARGO_TARGET_DIR="$HERE/work/target-cov"
 export VERIF_DIR="$HERE"
 tools="$(dirname "$(rustc +nightly --print target-libdir)")/bin"
 cov="$HERE/work/cov"; rm -rf "$cov"; mkdir -p "$cov/prof" "$cov/evidence"
-(cd "$HERE/harness" && RUSTFLAGS="-C instrument-coverage" cargo +nightly build --release --bin rio-check --bin rio-probe > "$cov/build.log" 2>&1) \
+(cd "$HERE/harness" && LLVM_PROFILE_FILE="$cov/build-%p-%m.profraw" RUSTFLAGS="-C instrument-coverage" cargo +nightly build --release --bin rio-check --bin rio-probe > "$cov/build.log" 2>&1) \
   || { tail -20 "$cov/build.log"; echo "coverage build failed"; exit 2; }
 mkdir -p "$CARGO_TARGET_DIR/probe"; cp "$CARGO_TARGET_DIR/release/rio-probe" "$CARGO_TARGET_DIR/probe/rio-probe"
 export LLVM_PROFILE_FILE="$cov/prof/%p-%m.profraw"
@@ -25,7 +25,7 @@ for id in "${ids[@]}"; do
   echo "$id exit=$? $(grep -E "^$id " "$cov/run-$id.log" | tail -1 | cut -c1-120)"
 done
 "$tools/llvm-profdata" merge -sparse "$cov"/prof/*.profraw -o "$cov/all.profdata" 2> "$cov/merge.log" || { tail "$cov/merge.log"; exit 2; }
-rm -rf "$cov/prof"
+rm -rf "$cov/prof" "$cov"/build-*.profraw
 objs=(-object "$CARGO_TARGET_DIR/release/rio-check" -object "$CARGO_TARGET_DIR/release/rio-probe")
 "$tools/llvm-cov" report "${objs[@]}" -instr-profile="$cov/all.profdata" --ignore-filename-regex='(\.cargo|rustc|/verif/)' > "$cov/summary.txt" 2>/dev/null
 "$tools/llvm-cov" export "${objs[@]}" -instr-profile="$cov/all.profdata" -format=lcov --ignore-filename-regex='(\.cargo|rustc|/verif/)' > "$cov/all.lcov" 2>/dev/null
